@@ -183,10 +183,11 @@ class SeqV:
 class RecSeqV:
     """A sequence of fixed-width int records (e.g. the tags of a TagSet): parallel z3 sequences."""
 
-    def __init__(self, cols, kind='tuple', names=None):
+    def __init__(self, cols, kind='tuple', names=None, eq=None):
         self.cols = list(cols)
         self.kind = kind
         self.names = names       # field names: elements are records (objects) that also unpack like tuples
+        self.eq = eq             # indices of the fields the records' __eq__ compares (None: not comparable)
 
     @property
     def length(self):
@@ -561,16 +562,17 @@ def PIntList():
 
 
 class PRecSeq(PSort):
-    def __init__(self, width, kind='tuple', names=None):
+    def __init__(self, width, kind='tuple', names=None, eq=None):
         self.width = width
         self.kind = kind
         self.names = names
+        self.eq = eq
 
     def make(self, ex, name):
         cols = [Const('%s.c%d' % (name, k), S) for k in range(self.width)]
         for c in cols[1:]:
             ex.assume(Length(c) == Length(cols[0]))
-        return RecSeqV(cols, self.kind, self.names)
+        return RecSeqV(cols, self.kind, self.names, self.eq)
 
 
 class PSeqKindBy(PSort):
@@ -1561,6 +1563,9 @@ class Executor:
         if isinstance(base, SeqV) and attr in SEQ_METHODS:
             f = SEQ_METHODS[attr]
             return FnV(lambda ex, *a, **k: f(ex, base, *a, **k), attr)
+        if isinstance(base, RecSeqV) and base.names and attr in base.names and getattr(self, '_in_spec', 0):
+            # specification only: the column of one field over all records
+            return SeqV(base.cols[list(base.names).index(attr)], 'tuple')
         if isinstance(base, Tup) and base.kind == 'list' and attr in LIST_METHODS:
             f = LIST_METHODS[attr]
             return FnV(lambda ex, *a, **k: f(ex, base, *a, **k), attr)
@@ -1886,6 +1891,12 @@ class Executor:
             x, y = toint(a), toint(b)
             return {ast.Lt: x < y, ast.LtE: x <= y, ast.Gt: x > y, ast.GtE: x >= y, ast.Eq: x == y,
                     ast.NotEq: x != y}[type(op)]
+        if isinstance(a, RecSeqV) and isinstance(b, RecSeqV) and isinstance(op, (ast.Eq, ast.NotEq)) \
+                and len(a.cols) == len(b.cols) and a.eq is not None and a.eq == b.eq:
+            # tuples of records: equal iff the fields that the records' own __eq__ looks at are equal, position by
+            # position (declared by the contract from the real class: Tag.__eq__ compares (tagClass, tagId) only)
+            r = b_and(*[a.cols[k] == b.cols[k] for k in a.eq])
+            return r if isinstance(op, ast.Eq) else b_not(r)
         if isinstance(op, (ast.Eq, ast.NotEq)):
             # values of different python types are unequal
             ta, tb = self.pytype(a), self.pytype(b)
